@@ -260,6 +260,41 @@ fn c16_e2e_linear3_concrete() {
     e2e_concrete(GameMode::Osu, PathType::LINEAR, &[(0.0, 0.0), (100.0, 0.0), (100.0, 50.0)], false);
 }
 
+/// Where the adjusted end point lies, for the axis-aligned concrete path (0,0),(100,0),(100,50):
+/// the cut point is interpolated on the segment the length falls in, an extension continues the
+/// last segment in its own direction. Axis-aligned segments make these positions exact in f32.
+fn e2e_linear3_geometry() {
+    let list = concrete_list(PathType::LINEAR, &[(0.0, 0.0), (100.0, 0.0), (100.0, 50.0)]);
+    let mut bufs = CurveBuffers::default();
+    let l: f64 = kani::any();
+    kani::assume(l > 0.0 && l <= 131072.0 && l != 100.0 && l != 150.0);
+    let curve = Curve::new(GameMode::Osu, &list, Some(l), &mut bufs);
+    let path = curve.path();
+    if l < 100.0 {
+        // cut inside the first segment: the second segment is gone
+        assert!(path.len() == 2, "segments beyond the requested length must be dropped");
+        assert!(path[1].x == l as f32 && path[1].y == 0.0, "the cut point is not on the first segment");
+        kani::cover!(true, "cut in the first segment");
+    } else {
+        // cut inside / extension of the second segment
+        assert!(path.len() == 3);
+        assert!(path[1].x == 100.0 && path[1].y == 0.0);
+        assert!(path[2].x == 100.0 && path[2].y == (l - 100.0) as f32, "the end point is not on the last segment's line");
+        kani::cover!(l > 150.0, "extension beyond the natural end");
+        kani::cover!(l < 150.0, "cut in the last segment");
+    }
+    core::mem::forget(curve);
+    core::mem::forget(bufs);
+    core::mem::forget(list);
+}
+
+// @verif property=C16,C19 tier=quick timeout=1200 mem=20 bounds="Curve::new on the CONCRETE axis-aligned path (0,0),(100,0),(100,50), requested length every f64 in (0,131072] except the two vertex lengths: exact position of the adjusted end point"
+#[kani::proof]
+#[kani::unwind(8)]
+fn c16_e2e_linear3_geometry() {
+    e2e_linear3_geometry();
+}
+
 // @verif property=C16 tier=quick timeout=1200 mem=20 bounds="Curve::new end to end: CONCRETE Linear points ending in a duplicate (0,0),(100,0),(100,0); requested length every finite f64 > 0 (osu-stable exception)"
 #[kani::proof]
 #[kani::unwind(8)]
